@@ -136,7 +136,7 @@ def run_case(rng, tier, case):
                 case.reject('Timegrid assertion: ' + str(ex)); return
             # restriction windows
             for _ in range(3):
-                ws, we, kind = gen.gen_window(rng, g) if mode == 'plain' else (None, None, 'none')
+                ws, we, kind = gen.gen_window(rng, g, offgrid=0.3) if mode == 'plain' else (None, None, 'none')
                 desc['windows'].append([ws, we])
                 ws_in = None if ws is None else pd.Timestamp(ws); we_in = None if we is None else pd.Timestamp(we)
                 if g['tz'] is not None and rng.random() < 0.5:
@@ -153,7 +153,7 @@ def run_case(rng, tier, case):
             # coarse restricted grid (aligned and unaligned windows)
             if mode == 'plain' and g['freq'] in COARSER and tg.T >= 2:
                 cf = gen.pick(rng, COARSER[g['freq']])
-                ws, we, kind = gen.gen_window(rng, g, kinds=['none', 'none', 'inside', 'straddle_start', 'straddle_end'])
+                ws, we, kind = gen.gen_window(rng, g, kinds=['none', 'none', 'inside', 'straddle_start', 'straddle_end'], offgrid=0.25)
                 desc['coarse'] = [cf, ws, we]
                 cs_in = None if ws is None else pd.Timestamp(ws); ce_in = None if we is None else pd.Timestamp(we)
                 if g['tz'] is not None and rng.random() < 0.35:
